@@ -99,7 +99,7 @@ class Checker:
         self.C = Collector(run)
         self.Tensor, _, self.nn, self.NF = synapgrad_modules()
         self.env = {"np": np, "Tensor": self.Tensor, "nn": self.nn, "F": self.NF}
-        self.n_cases = 0
+        self.n_cases, self.fns, self.seen = 0, {}, {}
 
     def snippet(self, src, x32, dtype, g):
         return ("import numpy as np; from synapgrad import nn; from synapgrad.nn import functional as F; from synapgrad.tensor import Tensor\n"
@@ -113,12 +113,13 @@ class Checker:
             return
         self.n_cases += 1
         scale = max(1.0, float(np.max(np.abs(x32))), others_max)
+        fwd = self.fns.get(src)
+        if fwd is None:
+            fwd = self.fns[src] = eval("lambda x, DT: " + src, self.env)   # noqa: S307 - expression written in this file
         for dt in DTYPES:
             dn = np.dtype(dt).name
             base = dict(cls, dtype=dn)
-            fwd = eval("lambda x, DT: " + src, self.env)   # noqa: S307 - expression written in this file
             srcd = src.replace("DT", "np." + dn)
-
             self.run.rt(hash((api, cid, dn)), n=0)           # distinct cases; clause evaluations are counted by judge()
 
             def judge(clause, ok, what, observed, actual, expected, g=None, tol=None, dn=dn, base=base, srcd=srcd):
@@ -136,12 +137,12 @@ class Checker:
                     return judge(clause_prefix + "shape", False, "result has %d elements, definition has %d" % (a.size, lo.size), "size", a.tolist(), lo.tolist(), g)
                 fin = bool(np.isfinite(a).all())
                 obs = "finite" if fin else "nan" if np.isnan(a).any() else "+inf" if (a == np.inf).any() else "-inf"
-                judge(clause_prefix + "finite", fin, "not finite: got %s, exact %s" % (a.tolist(), lo.tolist()), obs, a.tolist(), lo.tolist(), g)
+                judge(clause_prefix + "finite", fin, "not finite: got %s, exact %s" % (a.tolist(), lo.tolist()), obs, a.tolist(), lo.tolist(), g, tol)
                 if not fin:
                     return                                   # accuracy is only judged on finite results (no double report)
                 err = float(np.max(np.maximum(lo - a, a - hi).clip(min=0)))
                 r = err / tol
-                obs = "within" if r <= 1 else "1-8x tol" if r <= 8 else "8-1000x tol" if r <= 1000 else ">1000x tol"
+                obs = "within" if r <= 1 else "error 1-8x tolerance" if r <= 8 else "error >8x tolerance"
                 judge(clause_prefix + "accuracy", r <= 1, "|got - exact| = %.3g > %.3g = 2**-20*max(1,max|x|)%s: got %s, exact %s"
                       % (err, tol, "*max|g|" if g else "", a.tolist(), lo.tolist()), obs, a.tolist(), lo.tolist(), g, tol)
 
@@ -166,7 +167,8 @@ class Checker:
                     judge("grad.shape", False, "gradient shape %s, input shape %s" % (np.shape(x._grad), x32.shape), "shape", None, None, gflat)
                     continue
                 evaluate("grad.", x._grad, lo, hi, TOL * scale * max(abs(v) for v in gflat), gflat)
-        if self.n_cases % 97 == 1:
+        self.seen[api] = self.seen.get(api, 0) + 1
+        if self.seen[api] == 7:                              # one actual case per api form
             self.run.sample({"api": api, "call": src, "x": x32.tolist(), "exact": exact_out.tolist(), "upstream": [u[1] for u in ups]})
 
     # ------------------------------------------------------------------------------------------------ enumerators
@@ -211,7 +213,7 @@ class Checker:
         for ri, (row, source) in enumerate(rows):
             p, logp = ex_row(row)
             n = len(row)
-            cls = {"n_classes": n, "max_magnitude_class": mag_class(max(abs(v) for v in row)), "spread_class": spread_class(max(row) - min(row))}
+            cls = {"max_magnitude_class": mag_class(max(abs(v) for v in row)), "spread_class": spread_class(max(row) - min(row))}
             gs = [[1.0] * n, [-3.0] * n, [(1.0, -3.0)[j % 2] for j in range(n)]]
             x2 = np.array([row], dtype=np.float32)
             layouts = [("2d,dim=1", x2, "1")] + ([("2d,dim=-1", x2, "-1"), ("1d,dim=0", x2[0], "0"), ("column,dim=0", x2.T, "0")] if extra_layouts else [])
@@ -236,17 +238,16 @@ class Checker:
             p2, logp2 = ex_row(nxt)
             for lab in range(n):
                 oh = [mp.mpf(int(j == lab)) for j in range(n)]
-                c = dict(cls, op="cross_entropy", label_prob_class=prob_class(p[lab]), label_is_argmax=bool(row[lab] == max(row)))
+                # the class of a cross-entropy case is the exact probability of its label (magnitudes and spread are in the replay)
+                c = dict(op="cross_entropy", label_prob_class=prob_class(p[lab]), label_is_argmax=bool(row[lab] == max(row)))
                 ups = [("g=%g" % g, [g], fl([g * (a - b) for a, b in zip(p, oh)]), fl([g * (a - b) for a, b in zip(p, oh)])) for g in UPSTREAM]
                 ysrc = "Tensor(np.array(%r))"
                 self.case("nn.functional.cross_entropy", dict(c, form="functional", reduction="none"), ("ce", row, lab),
                           "F.cross_entropy(x, %s)" % (ysrc % [lab]), x2, 0.0, fl([-logp[lab]]), ups)
                 self.case("nn.CrossEntropyLoss", dict(c, form="module", reduction="none"), ("ce", row, lab, "none"),
                           "nn.CrossEntropyLoss(reduction='none')(x, %s)" % (ysrc % [lab]), x2, 0.0, fl([-logp[lab]]), ups)
-                both = row + nxt
                 worst = min(p[lab], p2[lab])
-                c2 = dict(c, form="module", label_prob_class=prob_class(worst), label_is_argmax=bool(row[lab] == max(row) and nxt[lab] == max(nxt)),
-                          max_magnitude_class=mag_class(max(abs(v) for v in both)), spread_class=spread_class(max(max(row) - min(row), max(nxt) - min(nxt))))
+                c2 = dict(c, form="module", label_prob_class=prob_class(worst), label_is_argmax=bool(row[lab] == max(row) and nxt[lab] == max(nxt)))
                 for red, k in (("mean", 2), ("sum", 1)):
                     gr = [[(a - b) / k for a, b in zip(pp, oh)] for pp in (p, p2)]
                     ups2 = [("g=%g" % g, [g], fl([g * u for u in gr[0] + gr[1]]), fl([g * u for u in gr[0] + gr[1]])) for g in UPSTREAM]
